@@ -22,7 +22,7 @@ from .corpus import content_bytes
 CACHE_DIR = ".codelimit_cache"
 CACHE_FILE = "codelimit.json"
 MARKERS = ("CACHEDIR.TAG", ".gitignore")
-STEP_BUDGET = 8_000_000
+STEP_BUDGET = 3_000_000
 _TOOL = 4
 
 
@@ -85,24 +85,60 @@ class _Steps:
     n = 0
     limit = STEP_BUDGET
     on = False
+    active = False
+    codes = 0
 
 
 def _py_start(code, offset):
-    _Steps.n += 1
-    if _Steps.n > _Steps.limit:
-        _Steps.limit = 1 << 62  # raise once
-        raise StepBudgetExceeded("step budget exceeded")
+    if _Steps.active:
+        _Steps.n += 1
+        if _Steps.n > _Steps.limit:
+            _Steps.limit = 1 << 62  # raise once
+            raise StepBudgetExceeded("step budget exceeded")
 
 
 def _jump(code, src, dst):
     # loop iterations count as steps too: a loop that calls nothing must not escape the budget
-    _Steps.n += 1
-    if _Steps.n > _Steps.limit:
-        _Steps.limit = 1 << 62
-        raise StepBudgetExceeded("step budget exceeded")
+    if _Steps.active:
+        _Steps.n += 1
+        if _Steps.n > _Steps.limit:
+            _Steps.limit = 1 << 62
+            raise StepBudgetExceeded("step budget exceeded")
+
+
+def _codelimit_code_objects():
+    """Every code object defined in a codelimit module (functions, methods, properties,
+    nested functions, lambdas, comprehensions)."""
+    import inspect
+    import types
+    out = set()
+
+    def rec(co):
+        if co in out:
+            return
+        out.add(co)
+        for c in co.co_consts:
+            if isinstance(c, types.CodeType):
+                rec(c)
+    for name, mod in list(sys.modules.items()):
+        if mod is None or not (name == "codelimit" or name.startswith("codelimit.")):
+            continue
+        for v in list(vars(mod).values()):
+            f = getattr(v, "__wrapped__", None) or getattr(v, "__func__", v)
+            if inspect.isfunction(f) and getattr(f, "__module__", "").startswith("codelimit"):
+                rec(f.__code__)
+            if inspect.isclass(v) and getattr(v, "__module__", None) == name:
+                for cv in list(vars(v).values()):
+                    f = cv.fget if isinstance(cv, property) else getattr(cv, "__func__", cv)
+                    if inspect.isfunction(f):
+                        rec(f.__code__)
+    return out
 
 
 def _steps_begin(limit=STEP_BUDGET):
+    """Steps = function starts and jumps (loop iterations) executed *inside codelimit's own
+    code*: local monitoring events on its code objects only, so rendering, lexing and
+    copying in third-party code cost nothing and cannot exhaust the budget."""
     mon = sys.monitoring
     if not _Steps.on:
         try:
@@ -111,14 +147,18 @@ def _steps_begin(limit=STEP_BUDGET):
             pass
         mon.register_callback(_TOOL, mon.events.PY_START, _py_start)
         mon.register_callback(_TOOL, mon.events.JUMP, _jump)
+        codes = _codelimit_code_objects()
+        for co in codes:
+            mon.set_local_events(_TOOL, co, mon.events.PY_START | mon.events.JUMP)
+        _Steps.codes = len(codes)
         _Steps.on = True
     _Steps.n = 0
     _Steps.limit = limit
-    mon.set_events(_TOOL, mon.events.PY_START | mon.events.JUMP)
+    _Steps.active = True
 
 
 def _steps_end() -> int:
-    sys.monitoring.set_events(_TOOL, 0)
+    _Steps.active = False
     return _Steps.n
 
 
@@ -490,7 +530,7 @@ class World:
         # bounded liveness: the budget grows with the tree (largest corpus text costs ~0.4 M
         # steps), so only a loop that does not terminate exhausts it
         n_files = sum(1 for _r, is_dir in list_tree(self.root) if not is_dir) if self.budget >= STEP_BUDGET else 0
-        _steps_begin(max(self.budget, 1_500_000 * n_files))
+        _steps_begin(max(self.budget, 600_000 * n_files))
         CTX.active = True
         try:
             with contextlib.redirect_stdout(out), contextlib.redirect_stderr(err):
